@@ -29,7 +29,7 @@ RULE = ('Per token class (ESCAPED_STRING, BLOCK_COMMENT, INLINE_COMMENT, DATE, N
         '(and indent); comment lexemes parse as a File, string lexemes inside an option directive. Non-trivial = value/lexeme with a hazard '
         'character, an escape, a line break, or (dates/numbers) a boundary component.')
 ASSUMPTIONS = [
-    'domains are the images of the class parsers: no leading blank in inline-comment values, no bare CR in comment values, non-negative plain-notation decimals for NUMBER, '
+    'domains are the lexical capacity of each terminal: no line break in inline-comment values (values beginning with a blank are enumerated: open finding), no bare CR in comment values, non-negative plain-notation decimals for NUMBER, '
     'flag characters for TRANSACTION_FLAG, currencies other than TRUE/FALSE/NULL',
     'from_value(x) == token is not asserted (formatting is documented as not preserved)',
 ]
@@ -180,7 +180,11 @@ def run_case(case: dict) -> Result:
         v = D.decode(case['v'])
         bad = check_value(rule, v, case.get('indent'))
         res.nontrivial = nontrivial(rule, v)
-        if bad:
+        if bad and rule == 'INLINE_COMMENT' and isinstance(v, str) and v.startswith(' '):
+            # the statement's domain is all strings; the class's parser drops every blank behind the ';' (open finding)
+            classes.add('inline-leading-blank')
+            res.bad('inline-comment-leading-blank-lost', bad[1])
+        elif bad:
             res.bad(*bad)
     elif kind == 'lexeme':
         s = case['t']
@@ -295,7 +299,7 @@ def _enum_strings():
             yield {'cls': 'ESCAPED_STRING', 'kind': 'value', 'v': {'vt': 'str', 'v': s}}
             if '\r' not in s.replace('\r\n', ''):
                 yield {'cls': 'BLOCK_COMMENT', 'kind': 'value', 'v': {'vt': 'str', 'v': s}, 'indent': '' if n % 2 else '  '}
-            if '\r' not in s and '\n' not in s and not s.startswith(' '):
+            if '\r' not in s and '\n' not in s:
                 yield {'cls': 'INLINE_COMMENT', 'kind': 'value', 'v': {'vt': 'str', 'v': s}}
 
 
